@@ -282,6 +282,8 @@ func (*BytecodeCompiler).prepLocals
   requires 0 <= c.predefinedLocals && -1 <= c.maxLocalIndex && c.maxLocalIndex < 65535 && c.predefinedLocals <= c.maxLocalIndex + 1
   ensures bytes: clen(c) == old(clen(c)) + old(plLen(c)) && c.bytecode == old(c.bytecode) && (old(plLen(c)) == 2 ==> ci(c, 0) == bytecode.PREP_LOCALS8 && ci(c, 1) == old(plCount(c))) && (old(plLen(c)) == 3 ==> ci(c, 0) == bytecode.PREP_LOCALS16 && be16(c, 1) == old(plCount(c))) && (forall k int :: 0 <= k && k < old(clen(c)) ==> ci(c, old(plLen(c)) + k) == old(ci(c, k)))
   ensures catch: c.bytecode.CatchEntries == old(c.bytecode.CatchEntries) && (forall k int :: 0 <= k && k < len(c.bytecode.CatchEntries) ==> elem(c.bytecode.CatchEntries, k) == old(elem(c.bytecode.CatchEntries, k))) && (forall k int :: 0 <= k && k < len(c.bytecode.CatchEntries) ==> elem(c.bytecode.CatchEntries, k).From == old(elem(c.bytecode.CatchEntries, k).From) + old(plLen(c)) && elem(c.bytecode.CatchEntries, k).To == old(elem(c.bytecode.CatchEntries, k).To) + old(plLen(c)) && elem(c.bytecode.CatchEntries, k).JumpAddress == old(elem(c.bytecode.CatchEntries, k).JumpAddress) + old(plLen(c)) && elem(c.bytecode.CatchEntries, k).Finally == old(elem(c.bytecode.CatchEntries, k).Finally))
+  // the recorded calls are shifted by exactly the length of the prologue
+  assert before relocateCalls#1: len(newInstructions) == old(plLen(c))
   loop 1
     invariant bytes: len(newInstructions) == old(plLen(c)) && clen(c) == old(clen(c)) + old(plLen(c)) && c.bytecode == old(c.bytecode) && (old(plLen(c)) == 2 ==> ci(c, 0) == bytecode.PREP_LOCALS8 && ci(c, 1) == old(plCount(c))) && (old(plLen(c)) == 3 ==> ci(c, 0) == bytecode.PREP_LOCALS16 && be16(c, 1) == old(plCount(c))) && (forall k int :: 0 <= k && k < old(clen(c)) ==> ci(c, old(plLen(c)) + k) == old(ci(c, k)))
     invariant same: c.bytecode.CatchEntries == old(c.bytecode.CatchEntries) && (forall k int :: 0 <= k && k < len(c.bytecode.CatchEntries) ==> elem(c.bytecode.CatchEntries, k) == old(elem(c.bytecode.CatchEntries, k)))
@@ -293,6 +295,24 @@ func (*BytecodeCompiler).prepLocals
     invariant bytes: clen(c) == old(clen(c)) + old(plLen(c)) && c.bytecode == old(c.bytecode) && (old(plLen(c)) == 2 ==> ci(c, 0) == bytecode.PREP_LOCALS8 && ci(c, 1) == old(plCount(c))) && (old(plLen(c)) == 3 ==> ci(c, 0) == bytecode.PREP_LOCALS16 && be16(c, 1) == old(plCount(c))) && (forall k int :: 0 <= k && k < old(clen(c)) ==> ci(c, old(plLen(c)) + k) == old(ci(c, k)))
     invariant catch: c.bytecode.CatchEntries == old(c.bytecode.CatchEntries) && (forall k int :: 0 <= k && k < len(c.bytecode.CatchEntries) ==> elem(c.bytecode.CatchEntries, k) == old(elem(c.bytecode.CatchEntries, k))) && (forall k int :: 0 <= k && k < len(c.bytecode.CatchEntries) ==> elem(c.bytecode.CatchEntries, k).From == old(elem(c.bytecode.CatchEntries, k).From) + old(plLen(c)) && elem(c.bytecode.CatchEntries, k).To == old(elem(c.bytecode.CatchEntries, k).To) + old(plLen(c)) && elem(c.bytecode.CatchEntries, k).JumpAddress == old(elem(c.bytecode.CatchEntries, k).JumpAddress) + old(plLen(c)) && elem(c.bytecode.CatchEntries, k).Finally == old(elem(c.bytecode.CatchEntries, k).Finally))
     decreases len(c.offsetValueIds) - range_idx
+
+// A call recorded for later optimisation names the offset of its opcode inside its function; the
+// optimiser rewrites the opcode at that offset AND the call-site record.  When the prologue is
+// put in front of the function the offset moves with everything else: every recorded call of
+// THIS function is shifted by delta, the records of other functions are left alone, and the list
+// is emptied (a second prologue would not shift them twice).
+func (*BytecodeCompiler).relocateCalls
+  props C29
+  requires c != nil && (forall k int :: 0 <= k && k < len(c.callsToRelocate) ==> elem(c.callsToRelocate, k) != nil) && (forall j int, k int :: 0 <= j && j < k && k < len(c.callsToRelocate) ==> elem(c.callsToRelocate, j) != elem(c.callsToRelocate, k))
+  ensures moved: forall k int :: 0 <= k && k < old(len(c.callsToRelocate)) && old(elem(c.callsToRelocate, k).bytecode) == c.bytecode ==> old(elem(c.callsToRelocate, k)).bytecodeOffset == wrapS64(old(elem(c.callsToRelocate, k).bytecodeOffset) + delta)
+  ensures others: forall k int :: 0 <= k && k < old(len(c.callsToRelocate)) && old(elem(c.callsToRelocate, k).bytecode) != c.bytecode ==> old(elem(c.callsToRelocate, k)).bytecodeOffset == old(elem(c.callsToRelocate, k).bytecodeOffset)
+  ensures emptied: len(c.callsToRelocate) == 0
+  loop 1
+    invariant same: c.callsToRelocate == old(c.callsToRelocate) && len(c.callsToRelocate) == old(len(c.callsToRelocate)) && c.bytecode == old(c.bytecode) && (forall k int :: 0 <= k && k < len(c.callsToRelocate) ==> elem(c.callsToRelocate, k) == old(elem(c.callsToRelocate, k)) && elem(c.callsToRelocate, k).bytecode == old(elem(c.callsToRelocate, k).bytecode))
+    invariant done: forall k int :: 0 <= k && k < range_idx ==> elem(c.callsToRelocate, k).bytecodeOffset == ite(old(elem(c.callsToRelocate, k).bytecode) == c.bytecode, wrapS64(old(elem(c.callsToRelocate, k).bytecodeOffset) + delta), old(elem(c.callsToRelocate, k).bytecodeOffset))
+    invariant todo: forall k int :: range_idx <= k && k < len(c.callsToRelocate) ==> elem(c.callsToRelocate, k).bytecodeOffset == old(elem(c.callsToRelocate, k).bytecodeOffset)
+    hint apart: forall k int :: 0 <= k && k < len(c.callsToRelocate) && k != range_idx ==> elem(c.callsToRelocate, k) != elem(c.callsToRelocate, range_idx)
+    decreases len(c.callsToRelocate) - range_idx
 
 func (*BytecodeCompiler).emitInstantiate
   props C29 C32
